@@ -277,3 +277,33 @@ func (p *Prog) DominatingFacts(f *Func, n ast.Node) FactSet {
 	}
 	return s
 }
+
+// MustPrecede: every path from f's entry to target executes a node accepted
+// by barrier first (must-pass-through on the CFG).
+func (p *Prog) MustPrecede(f *Func, target ast.Node, barrier func(n ast.Node) bool) bool {
+	g := p.CFG(f)
+	loc, ok := g.Locate(target)
+	if !ok {
+		return false
+	}
+	for i := 0; i < loc.I; i++ {
+		if barrier(loc.B.Nodes[i]) {
+			return true
+		}
+	}
+	if loc.B == g.Entry {
+		return false
+	}
+	_, found := g.PathAvoiding(Loc{g.Entry, 0}, barrier, func(b *Block) bool { return b == loc.B }, nil)
+	return !found
+}
+
+// nodeHasCall: n contains (outside nested literals) a call accepted by pred.
+func (p *Prog) nodeHasCall(n ast.Node, pred func(c *ast.CallExpr) bool) bool {
+	for _, c := range p.NodeCalls(n) {
+		if pred(c) {
+			return true
+		}
+	}
+	return false
+}
